@@ -565,9 +565,9 @@ theorem helperDeposit_WInv {c : Cfg} {s s' : St} {e : Env} {a0 a1 dur : Nat} (hI
   obtain ⟨b1, _, h⟩ := bind_eq_ok h
   obtain ⟨b2, _, h⟩ := bind_eq_ok h
   obtain ⟨_, _, h⟩ := bind_eq_ok h
-  obtain ⟨b3, _, h⟩ := bind_eq_ok h
   obtain ⟨lp, _, h⟩ := bind_eq_ok h
   obtain ⟨_, _, h⟩ := bind_eq_ok h
+  obtain ⟨b3, _, h⟩ := bind_eq_ok h
   obtain ⟨b4, _, h⟩ := bind_eq_ok h
   obtain ⟨_, _, h⟩ := bind_eq_ok h
   obtain ⟨b5, _, h⟩ := bind_eq_ok h
